@@ -1,6 +1,7 @@
 package oracle
 
 import (
+	"time"
 	"os"
 	"bytes"
 	"encoding/json"
@@ -445,6 +446,24 @@ func c14WriteJSONAcrossKinds(rep *core.Report) {
 		Lint: func() lint.RevocationListLintInterface { return mockCRL{lint.Pass} }})
 	lint.RegisterOcspResponseLint(&lint.OcspResponseLint{LintMetadata: lint.LintMetadata{Name: name, Description: "mock OCSP lint", Citation: "ocsp §3", Source: lint.RFC6960},
 		Lint: func() lint.OcspResponseLintInterface { return mockOCSP{lint.Pass} }})
+	// lints whose metadata is unusual but legal: dates no calendar library likes (year 0, 10000+), empty citation, text that
+	// needs escaping — every registered lint has its line, whatever it carries
+	for i, m := range []lint.LintMetadata{
+		{Name: "n_zz_verif_meta_far_future", Description: "ineffective in year 12000", Citation: "§x", Source: lint.Community, IneffectiveDate: time.Date(12000, 1, 1, 0, 0, 0, 0, time.UTC)},
+		{Name: "n_zz_verif_meta_far_past", Description: "effective before year 0", Citation: "§y", Source: lint.Community, EffectiveDate: time.Date(-5, 1, 1, 0, 0, 0, 0, time.UTC)},
+		{Name: "n_zz_verif_meta_both", Description: "window in non-UTC zones", Citation: "", Source: lint.RFC5280, EffectiveDate: time.Date(2020, 1, 1, 0, 0, 0, 0, time.FixedZone("x", 3600*14)), IneffectiveDate: time.Date(10000, 1, 1, 0, 0, 0, 0, time.FixedZone("y", -3600*12))},
+		{Name: "n_zz_verif_meta_text", Description: "quotes \" backslash \\ <tag> & \u2028 and more", Citation: "line\nbreak\ttab", Source: lint.RFC6960},
+	} {
+		m := m
+		switch i % 3 {
+		case 0:
+			lint.RegisterCertificateLint(&lint.CertificateLint{LintMetadata: m, Lint: func() lint.CertificateLintInterface { return mockCert{lint.Pass} }})
+		case 1:
+			lint.RegisterRevocationListLint(&lint.RevocationListLint{LintMetadata: m, Lint: func() lint.RevocationListLintInterface { return mockCRL{lint.Pass} }})
+		default:
+			lint.RegisterOcspResponseLint(&lint.OcspResponseLint{LintMetadata: m, Lint: func() lint.OcspResponseLintInterface { return mockOCSP{lint.Pass} }})
+		}
+	}
 	g := lint.GlobalRegistry()
 	c14WriteJSONOne(rep, "global+same-name-mocks", g)
 	for _, o := range []lint.FilterOptions{{IncludeNames: []string{name}}, {IncludeSources: lint.SourceList{lint.RFC5280, lint.RFC6960}}, {ExcludeSources: lint.SourceList{lint.Community}}} {
